@@ -23,6 +23,7 @@ type c16Ref struct {
 	Ent  int    `json:"ent,omitempty"` // index into the scope's entities (source order)
 	Via  string `json:"via,omitempty"` // alias | name | num
 	Val  bool   `json:"val,omitempty"` // also observe the value
+	G    string `json:"g,omitempty"`   // kind grp: the alias of a parenthesised (optional) group
 }
 
 type c16Act struct {
@@ -59,6 +60,10 @@ type c16Gen struct {
 	// rejects mid-rule actions in rules with state markers)
 	markers bool
 	plain   map[*egPart]bool
+	// grps are the aliases put on whole groups `(a b?)[gN]`, `(a | b c)[gN]?`; a command that sees
+	// the alias (entries -1-k in its by-name list) may log ${gN.offset} and ${gN.endoffset}: the
+	// span from the first to the last member that is present in the expansion.
+	grps []string
 }
 
 // refsFor draws references for a command that sees `visible` by name (entity indices) and all
@@ -70,6 +75,10 @@ func (e *c16Gen) refsFor(ents []*egPart, byName []int, upto int, final bool, uni
 		r := c16Ref{Kind: "ent"}
 		if len(byName) > 0 && rapid.Bool().Draw(e.t, "byName") {
 			r.Ent = byName[rapid.IntRange(0, len(byName)-1).Draw(e.t, "ent")]
+			if r.Ent < 0 {
+				refs = append(refs, c16Ref{Kind: "grp", G: e.grps[-1-r.Ent]})
+				continue
+			}
 			r.Via = "alias"
 			p := ents[r.Ent]
 			if p.K == "n" && uniqueNT[p.Sym] && p.Alias == "" && rapid.Bool().Draw(e.t, "viaName") {
@@ -85,6 +94,12 @@ func (e *c16Gen) refsFor(ents []*egPart, byName []int, upto int, final bool, uni
 			r.Val = rapid.IntRange(0, 3).Draw(e.t, "val") > 0
 		}
 		refs = append(refs, r)
+	}
+	for _, v := range byName {
+		// group aliases are rare: every command that sees one uses it every second time
+		if v < 0 && rapid.Bool().Draw(e.t, "groupRef") {
+			refs = append(refs, c16Ref{Kind: "grp", G: e.grps[-1-v]})
+		}
 	}
 	if rapid.IntRange(0, 2).Draw(e.t, "firstlast") == 0 {
 		refs = append(refs, c16Ref{Kind: "firstlast"})
@@ -150,6 +165,12 @@ func (e *c16Gen) scope(a *egAlt, top bool) {
 						continue
 					}
 					local = append(local, walk(s, true)...)
+				}
+				if !simple && rapid.IntRange(0, 1).Draw(e.t, "groupAlias") == 0 {
+					// visible behind the group only: the alias is registered when the group ends
+					p.Alias = fmt.Sprintf("g%d", len(e.grps))
+					local = append(local, -1-len(e.grps))
+					e.grps = append(e.grps, p.Alias)
 				}
 			}
 		}
@@ -291,6 +312,8 @@ func (c *c16Case) actionText(id int, info map[int]*c16ActInfo) string {
 			fmt.Fprintf(&sb, "verifObs(%d, %d, 0, ${first().offset}, ${last().endoffset}); ", id, j)
 		case "left":
 			fmt.Fprintf(&sb, "verifObs(%d, %d, 0, ${left().offset}, ${left().endoffset}); ", id, j)
+		case "grp":
+			fmt.Fprintf(&sb, "verifObs(%d, %d, 0, ${%s.offset}, ${%s.endoffset}); ", id, j, r.G, r.G)
 		default:
 			if r.Ent >= len(ai.ents) {
 				continue
@@ -418,6 +441,29 @@ type c16Model struct {
 	offs []int // token start offsets, offs[len] = offset of the end-of-input token
 	log  strings.Builder
 	used map[string]int // statistics
+	grps map[string]*egPart
+}
+
+// groupParts maps the aliases of groups to their parts.
+func (c *c16Case) groupParts() map[string]*egPart {
+	out := map[string]*egPart{}
+	var walk func(a *egAlt)
+	walk = func(a *egAlt) {
+		for _, p := range a.Parts {
+			if (p.K == "opt" || p.K == "grp") && p.Alias != "" {
+				out[p.Alias] = p
+			}
+			for _, s := range p.Alts {
+				walk(s)
+			}
+		}
+	}
+	for _, nt := range c.G.NTs {
+		for _, a := range nt.Alts {
+			walk(a)
+		}
+	}
+	return out
 }
 
 func (m *c16Model) span(sc *c16Scope, next int) (int, int) {
@@ -441,6 +487,27 @@ func (m *c16Model) emit(id int, sc *c16Scope, lhsOff, lhsEnd int) {
 		case "left":
 			fmt.Fprintf(&m.log, "%d:%d:0:%d:%d;", id, j, lhsOff, lhsEnd)
 			m.used["left"]++
+		case "grp":
+			// the positioned members of the group in source order (a list is one member)
+			var members []*egPart
+			for _, a := range m.grps[r.G].Alts {
+				scopeEntities(a, &members)
+			}
+			f, l := -1, -1
+			for _, p := range members {
+				if idx, ok := sc.present[p]; ok {
+					if f < 0 {
+						f = sc.syms[idx].off
+					}
+					l = sc.syms[idx].end
+				}
+			}
+			fmt.Fprintf(&m.log, "%d:%d:0:%d:%d;", id, j, f, l)
+			if f < 0 {
+				m.used["absent:group"]++
+			} else {
+				m.used["present:group"]++
+			}
 		default:
 			if r.Ent >= len(ai.ents) {
 				continue
@@ -532,7 +599,7 @@ func c16Check(c c16Case, res *batch.Result, run runFunc, r *ev.Recorder) *Failur
 			continue
 		}
 		src, offs := egSource(toks, c.Space, c.Seed+s)
-		m := &c16Model{c: &c, info: info, offs: offs, used: stats}
+		m := &c16Model{c: &c, info: info, offs: offs, used: stats, grps: c.groupParts()}
 		_, _, val := m.rule(dn)
 		want := m.log.String() + "result:" + val + ";|ok"
 		out, pan, err := c19Run(run, 0, src, "")
@@ -587,7 +654,7 @@ func c16Check(c c16Case, res *batch.Result, run runFunc, r *ev.Recorder) *Failur
 func TestC16(t *testing.T) {
 	p := &batchProp[c16Case]{
 		ID:        "C16",
-		Rule:      "grammars in extended notation (optional parts, nested choices, lists with/without separators; no AST annotations) where every terminal has type int and value = its start offset, every nonterminal has type int; every top-level alternative ends with an action `$$ = <alt id>*100000 + ${left().offset}` and generated mid-rule actions are placed between parts of top-level and nested alternatives and inside / at the end of list elements. Each action logs up to 3 references to entities of its rule scope — by alias `part[rN]` ($rN, ${rN}, ${rN.offset}, ${rN.endoffset}), by nonterminal name when unique, or by number ($N, ${N.offset}; any preceding position, including symbols of other alternatives) — plus ${first().offset}/${last().endoffset} and, in final actions, ${left().offset}/${left().endoffset}. 40 derived sentences per grammar (with/without skipped spaces); the log must equal the log predicted from the derivation: present symbol -> its value and [offset,endoffset) on the stack (empty nonterminals and mid-rule nonterminals sit at the next token), absent symbol -> nil / -1. Non-trivial: a grammar whose sentences exercised at least 3 different kinds of (presence, reference form, symbol kind).",
+		Rule:      "grammars in extended notation (optional parts, nested choices, lists with/without separators; no AST annotations) where every terminal has type int and value = its start offset, every nonterminal has type int; every top-level alternative ends with an action `$$ = <alt id>*100000 + ${left().offset}` and generated mid-rule actions are placed between parts of top-level and nested alternatives and inside / at the end of list elements. Each action logs up to 3 references to entities of its rule scope — by alias `part[rN]` ($rN, ${rN}, ${rN.offset}, ${rN.endoffset}), by nonterminal name when unique, or by number ($N, ${N.offset}; any preceding position, including symbols of other alternatives); half of the parenthesised groups and optional groups carry an alias `(a b?)[gN]` / `(a | b c)[gN]?` and the commands behind them log ${gN.offset}/${gN.endoffset} (span from the first to the last member present in the expansion, -1/-1 when none is) — plus ${first().offset}/${last().endoffset} and, in final actions, ${left().offset}/${left().endoffset}. 40 derived sentences per grammar (with/without skipped spaces); the log must equal the log predicted from the derivation: present symbol -> its value and [offset,endoffset) on the stack (empty nonterminals and mid-rule nonterminals sit at the next token), absent symbol -> nil / -1. Non-trivial: a grammar whose sentences exercised at least 3 different kinds of (presence, reference form, symbol kind).",
 		Assume:    []string{"grammars rejected by the compiler (conflicts caused by mid-rule nonterminals etc.) are outside the domain and counted"},
 		Quick:     128, Thorough: 1920, BatchSize: 48,
 		Gen:       c16GenCase,
